@@ -660,3 +660,653 @@ for _pr in ("BMQV", "BSTS", "BPACE"):
         BUILDERS["bake%sRun%s:badtag" % (_pr, _sd)] = _bake_run(_pr, _sd, True)
         HEAVY.add("bake%sRun%s" % (_pr, _sd))
         HEAVY.add("bake%sRun%s:badtag" % (_pr, _sd))
+
+
+# ===============================================================================================================
+# round 2: the remaining allocating functions that take a secret.  Conventions as above: both twins get the same
+# public inputs, sizes and generator tapes; only the secret (and what the caller necessarily derives from it before
+# the call: a matching public key, a matching one-time password, a container made with it) differs.
+
+B96_NAME = "1.2.112.0.2.0.34.101.45.3.0"
+_CACHE = {}      # (id(lib), what) -> Python-side data only (never lib pointers: the unit releases them after every case)
+
+
+def _brng():
+    return "brngCTRStepR"
+
+
+def _fmt_decr(lib, rng, size):
+    count = max(2, min(size // 2, 60))
+    mod = rng.choice([10, 256, 1000, 65536])
+    klen = rng.choice([16, 24, 32])
+    src = b"".join(rng.randrange(mod).to_bytes(2, "little") for _ in range(count))
+    iv = rb(rng, 16)
+    c = Call("beltFMTDecr", lib.beltFMTDecr)
+    for v in c.v:
+        key = rb(rng, klen)
+        d = lib.alloc(2 * count)
+        v.args = [d, mod, lib.mk(src), count, lib.mk(key), klen, lib.mk(iv)]
+        v.outs = [(d, 2 * count)]
+        v.pub = [src, iv]
+        v.needles = [key, expand_key(key)]
+    return c
+
+
+# ---- bels on the standard public keys ---------------------------------------------------------------------------
+
+def _bels_share23(det):
+    name = "belsShare3" if det else "belsShare2"
+
+    def build(lib, rng, size):
+        ln = rng.choice([16, 24, 32])
+        count = rng.randrange(2, 10)
+        thr = rng.randrange(1, count + 1)
+        c = Call(name, getattr(lib, name))
+        for v in c.v:
+            s = rb(rng, ln)
+            si = lib.alloc(count * (ln + 1))
+            v.args = [si, count, thr, ln, lib.mk(s)]
+            if not det:
+                v.args += [lib.addr(_brng()), rng_state(lib, random.Random(23))]
+            v.outs = [(si, count * (ln + 1))]        # the shares go to the caller
+            # belsShare3 keys its generator with belt-compress(~K || K), K = belt-keyexpand(s)
+            v.needles = [s] + ([expand_key(s)] if det else [])
+        return c
+    return build
+
+
+def _bels_recover2(lib, rng, size):
+    ln = rng.choice([16, 24, 32])
+    count = rng.randrange(2, 8)
+    thr = rng.randrange(1, count + 1)
+    c = Call("belsRecover2", lib.belsRecover2)
+    for v in c.v:
+        s = rb(rng, ln)
+        si = lib.alloc(count * (ln + 1))
+        if lib.belsShare2(si, count, thr, ln, lib.mk(s), lib.addr(_brng()), rng_state(lib, random.Random(29))) != ERR_OK:
+            raise Harness("belsShare2 failed")
+        use = lib.rd(si, count * (ln + 1))[:thr * (ln + 1)]
+        out = lib.alloc(ln)
+        v.args = [out, thr, ln, lib.mk(use)]
+        v.outs = [(out, ln)]        # the recovered secret goes to the caller
+        v.pub = [s]
+        # with threshold 1 every share equals the secret, which is the output
+        v.needles = [use[i * (ln + 1) + 1:(i + 1) * (ln + 1)] for i in range(thr)] if thr > 1 else []
+    return c
+
+
+# ---- bign96 / bign key pair validation ---------------------------------------------------------------------------
+
+def bign96_params(lib):
+    p = lib.alloc(BIGN_PARAMS_SIZE, 0)
+    if lib.bign96ParamsStd(p, lib.cstr(B96_NAME)) != ERR_OK:
+        raise Harness("bign96ParamsStd failed")
+    raw = lib.rd(p, BIGN_PARAMS_SIZE)
+    return p, int.from_bytes(raw[8 + 192:8 + 192 + 24], "little")
+
+
+def _params_any(lib, l):
+    """l = 96 selects bign96"""
+    return bign96_params(lib) if l == 96 else bign_params(lib, l)
+
+
+def _pubkey_of(lib, l, d):
+    no = 24 if l == 96 else l // 4
+    params, _ = _params_any(lib, l)
+    pubp = lib.alloc(2 * no)
+    f = lib.bign96PubkeyCalc if l == 96 else lib.bignPubkeyCalc
+    if f(pubp, params, lib.mk(d)) != ERR_OK:
+        raise Harness("PubkeyCalc failed")
+    return lib.rd(pubp, 2 * no)
+
+
+def _priv_any(rng, q, l):
+    return rng.randrange(1, q).to_bytes(24 if l == 96 else l // 4, "little")
+
+
+def _bign96_sign(det):
+    name = "bign96Sign2" if det else "bign96Sign"
+
+    def build(lib, rng, size):
+        h = rb(rng, 24)
+        t = rb(rng, rng.choice([0, 0, 8, 40])) if det else b""
+        c = Call(name, getattr(lib, name))
+        for v in c.v:
+            params, q = bign96_params(lib)
+            d = _priv_any(rng, q, 96)
+            sig = lib.alloc(34)
+            v.args = [sig, params, lib.mk(OID_DER_BELT_HASH), len(OID_DER_BELT_HASH), lib.mk(h), lib.mk(d)]
+            if det:
+                v.args += [lib.mk(t) if t else 0, len(t)]
+            else:
+                v.args += [lib.addr(_brng()), rng_state(lib, random.Random(37))]
+            v.outs = [(sig, 34)]
+            v.pub = [h, t]
+            v.needles = [d]
+        return c
+    return build
+
+
+def _bign96_keygen(lib, rng, size):
+    c = Call("bign96KeypairGen", lib.bign96KeypairGen)
+    for v in c.v:
+        params, q = bign96_params(lib)
+        priv, pub = lib.alloc(24), lib.alloc(48)
+        k = rb(rng, 32)
+        v.args = [priv, pub, params, lib.addr(_brng()), rng_state(lib, random.Random(41), key=k)]
+        # the private key is returned to the caller (an output); the generator key is the secret input
+        v.outs = [(priv, 24), (pub, 48)]
+        v.needles = [k]
+    return c
+
+
+def _bign96_pubcalc(lib, rng, size):
+    c = Call("bign96PubkeyCalc", lib.bign96PubkeyCalc)
+    for v in c.v:
+        params, q = bign96_params(lib)
+        d = _priv_any(rng, q, 96)
+        pub = lib.alloc(48)
+        v.args = [pub, params, lib.mk(d)]
+        v.outs = [(pub, 48)]
+        v.needles = [d]
+    return c
+
+
+def _keypair_val(b96, bad=False):
+    fn = "bign96KeypairVal" if b96 else "bignKeypairVal"
+
+    def build(lib, rng, size):
+        l = 96 if b96 else rng.choice([128, 192, 256])
+        c = Call(fn + (":bad-pubkey" if bad else ""), getattr(lib, fn), "bad-pubkey" if bad else "ok")
+        c.expect_ok = not bad
+        _, q = _params_any(lib, l)
+        other = _pubkey_of(lib, l, _priv_any(rng, q, l))      # somebody else's (valid) public key, the same in both twins
+        for v in c.v:
+            params, _ = _params_any(lib, l)
+            d = _priv_any(rng, q, l)
+            pub = other if bad else _pubkey_of(lib, l, d)
+            v.args = [params, lib.mk(d), lib.mk(pub)]
+            v.pub = [pub]
+            v.needles = [d]
+        return c
+    return build
+
+
+# ---- bign identity-based signature ------------------------------------------------------------------------------
+
+def _ibs_issue(lib, rng, l, d0, H0):
+    """identity signature of the trusted party (private key d0) on the identifier hash H0, one-time key from rng"""
+    no = l // 4
+    params, _ = bign_params(lib, l)
+    sigp = lib.alloc(no + no // 2)
+    if lib.bignSign(sigp, params, lib.mk(OID_DER_BELT_HASH), len(OID_DER_BELT_HASH), lib.mk(H0), lib.mk(d0),
+                    lib.addr(_brng()), rng_state(lib, rng)) != ERR_OK:
+        raise Harness("bignSign (identity signature) failed")
+    return lib.rd(sigp, no + no // 2)
+
+
+def _bign_id_extract(lib, rng, size):
+    l = rng.choice([128, 192, 256])
+    no = l // 4
+    _, q = bign_params(lib, l)
+    d0, H0 = rand_priv(rng, q, l), rb(rng, no)
+    Q0 = _pubkey_of(lib, l, d0)
+    c = Call("bignIdExtract", lib.bignIdExtract)
+    for v in c.v:
+        params, _ = bign_params(lib, l)
+        sig0 = _ibs_issue(lib, rng, l, d0, H0)       # differs between the twins through the one-time key only
+        idpriv, idpub = lib.alloc(no), lib.alloc(2 * no)
+        v.args = [idpriv, idpub, params, lib.mk(OID_DER_BELT_HASH), len(OID_DER_BELT_HASH), lib.mk(H0), lib.mk(sig0), lib.mk(Q0)]
+        v.outs = [(idpriv, no), (idpub, 2 * no)]     # the extracted key pair goes to the caller
+        v.pub = [H0, Q0]
+        v.needles = [sig0]                           # whoever holds the identity signature holds the private key
+    return c
+
+
+def _bign_id_sign(det):
+    name = "bignIdSign2" if det else "bignIdSign"
+
+    def build(lib, rng, size):
+        l = rng.choice([128, 192, 256])
+        no = l // 4
+        _, q = bign_params(lib, l)
+        d0, H0, H = rand_priv(rng, q, l), rb(rng, no), rb(rng, no)
+        Q0 = _pubkey_of(lib, l, d0)
+        t = rb(rng, rng.choice([0, 0, 8, 40])) if det else b""
+        c = Call(name, getattr(lib, name))
+        for v in c.v:
+            params, _ = bign_params(lib, l)
+            sig0 = _ibs_issue(lib, rng, l, d0, H0)
+            idpriv, idpub = lib.alloc(no), lib.alloc(2 * no)
+            if lib.bignIdExtract(idpriv, idpub, params, lib.mk(OID_DER_BELT_HASH), len(OID_DER_BELT_HASH), lib.mk(H0),
+                                 lib.mk(sig0), lib.mk(Q0)) != ERR_OK:
+                raise Harness("bignIdExtract failed")
+            e = lib.rd(idpriv, no)
+            idsig = lib.alloc(no + no // 2)
+            v.args = [idsig, params, lib.mk(OID_DER_BELT_HASH), len(OID_DER_BELT_HASH), lib.mk(H0), lib.mk(H), lib.mk(e)]
+            if det:
+                v.args += [lib.mk(t) if t else 0, len(t)]
+            else:
+                v.args += [lib.addr(_brng()), rng_state(lib, random.Random(43))]
+            v.outs = [(idsig, no + no // 2)]
+            v.pub = [H0, H, t]
+            v.needles = [e]
+        return c
+    return build
+
+
+# ---- botp: verification ----------------------------------------------------------------------------------------------
+
+def _otp_verify(mode, bad=False):
+    fn = "botp%sVerify" % mode
+
+    def build(lib, rng, size):
+        digit = rng.choice([6, 7, 8])
+        ctr, p, s = rb(rng, 8), rb(rng, 32), rb(rng, 32)
+        t = rng.getrandbits(30)
+        q = b"12345678"
+        suite = "OCRA-1:HOTP-HBELT-%d:C-QN08-PHBELT-S032-T30S" % digit
+        wrong = "".join(rng.choice("0123456789") for _ in range(digit)).encode()
+        keys = [rb(rng, 32), rb(rng, 32)]
+        c = Call(fn + (":bad-otp" if bad else ""), getattr(lib, fn), "bad-otp" if bad else "ok")
+        c.expect_ok = not bad
+        good = []
+        for key in keys:
+            d = lib.alloc(digit + 1)
+            if mode == "HOTP":
+                r = lib.botpHOTPRand(d, digit, lib.mk(key), 32, lib.mk(ctr))
+            elif mode == "TOTP":
+                r = lib.botpTOTPRand(d, digit, lib.mk(key), 32, t)
+            else:
+                r = lib.botpOCRARand(d, lib.cstr(suite), lib.mk(key), 32, lib.mk(q), 8, lib.mk(ctr), lib.mk(p), lib.mk(s), t)
+            if r != ERR_OK:
+                raise Harness("botp%sRand failed" % mode)
+            good.append(lib.rd(d, digit))
+        while wrong in good:          # one and the same wrong password for both twins
+            wrong = b"%0*d" % (digit, (int(wrong) + 1) % 10 ** digit)
+        for v, key, otp in zip(c.v, keys, good):
+            o = wrong if bad else otp
+            if mode == "HOTP":
+                v.args = [lib.cstr(o), lib.mk(key), 32, lib.mk(ctr)]
+            elif mode == "TOTP":
+                v.args = [lib.cstr(o), lib.mk(key), 32, t]
+            else:
+                v.args = [lib.cstr(o), lib.cstr(suite), lib.mk(key), 32, lib.mk(q), 8, lib.mk(ctr), lib.mk(p), lib.mk(s), t]
+            v.pub = [o, q, ctr, p, s]     # the (correct) password is what the token shows: an input the verifier received
+            v.needles = [key]
+        return c
+    return build
+
+
+# ---- bpki: share containers, certificate request -------------------------------------------------------------------
+
+def _bpki_share(unwrap, badpwd=False):
+    def build(lib, rng, size):
+        slen = rng.choice([17, 25, 33])
+        idx = rng.randrange(1, 17)          # number of the public key: public, the same in both twins
+        salt = rb(rng, 8)
+        it = 10000
+        name = "bpkiShare" + ("Unwrap" if unwrap else "Wrap") + (":bad-pwd" if badpwd else "")
+        c = Call(name, lib.bpkiShareUnwrap if unwrap else lib.bpkiShareWrap, "bad-pwd" if badpwd else "ok")
+        c.expect_ok = not badpwd
+        for v in c.v:
+            share, pwd = bytes([idx]) + rb(rng, slen - 1), rb(rng, 12)
+            ln = lib.alloc(8, 0)
+            if lib.bpkiShareWrap(0, ln, lib.mk(share), slen, lib.mk(pwd), 12, lib.mk(salt), it) != ERR_OK:
+                raise Harness("bpkiShareWrap size probe failed")
+            n = lib.rd_size(ln)
+            epki = lib.alloc(n)
+            if not unwrap:
+                v.args = [epki, lib.alloc(8, 0), lib.mk(share), slen, lib.mk(pwd), 12, lib.mk(salt), it]
+                v.outs = [(epki, n)]
+                v.pub = [salt]
+                v.needles = [share, pwd]
+            else:
+                if lib.bpkiShareWrap(epki, lib.alloc(8, 0), lib.mk(share), slen, lib.mk(pwd), 12, lib.mk(salt), it) != ERR_OK:
+                    raise Harness("bpkiShareWrap failed")
+                cont = lib.rd(epki, n)
+                usepwd = pwd if not badpwd else bytes([pwd[0] ^ 1]) + pwd[1:]
+                out = lib.alloc(slen)
+                v.args = [out, lib.alloc(8, 0), lib.mk(cont), n, lib.mk(usepwd), 12]
+                v.outs = [(out, slen)]
+                v.pub = [cont] + ([share] if not badpwd else [])
+                v.needles = [usepwd] + ([share] if badpwd else [])
+        return c
+    return build
+
+
+def _bpki_csr_rewrap(lib, rng, size):
+    from .c09_contracts import CSR_HEX       # the request of bpki_test.c
+    csr0 = bytes.fromhex(CSR_HEX)
+    c = Call("bpkiCSRRewrap", lib.bpkiCSRRewrap)
+    _, q = bign_params(lib, 128)
+    for v in c.v:
+        d = rand_priv(rng, q, 128)
+        p = lib.mk(csr0)
+        v.args = [p, len(csr0), lib.mk(d), 32]
+        v.outs = [(p, len(csr0))]            # the request is rewritten in place (new public key, new signature)
+        v.pub = [csr0]
+        v.needles = [d]
+    return c
+
+
+# ---- btok: CV certificates ------------------------------------------------------------------------------------------
+
+def _cvc_l(klen):
+    return {24: 96, 32: 128, 48: 192, 64: 256}[klen]
+
+
+def _cvc_key(lib, rng, klen):
+    _, q = _params_any(lib, _cvc_l(klen))
+    d = rng.randrange(1, q).to_bytes(klen, "little")
+    return d, _pubkey_of(lib, _cvc_l(klen), d)
+
+
+def _cvc_names(rng):
+    from . import c17
+    return c17.rname(rng, rng.randrange(8, 13)), c17.rname(rng, rng.randrange(8, 13))
+
+
+def _cvc_self(lib, d, name, dates):
+    """self-signed certificate of the key d"""
+    from . import c17
+    code, cert, _ = c17.wrap(lib, {"authority": name, "holder": name, "from": dates[0], "until": dates[1]}, d)
+    if code != 0:
+        raise Harness("btokCVCWrap (self-signed) failed: %d" % code)
+    return cert
+
+
+def _btok_cvc_wrap(lib, rng, size):
+    from . import c17
+    klen = rng.choice([24, 32, 48, 64])
+    auth, holder = _cvc_names(rng)
+    dates = (c17.ymd(22, 7, 7), c17.ymd(29, 7, 7))
+    proof = rng.random() < 0.5            # pubkey_len == 0: the public key is built from privkey (proof of possession)
+    hk = rng.choice([24, 32, 48, 64])
+    _, hpub = _cvc_key(lib, rng, hk)      # otherwise: the holder's public key, the same in both twins
+    content = {"authority": auth, "holder": holder, "from": dates[0], "until": dates[1], "hat_eid": rb(rng, 5), "hat_esign": rb(rng, 2)}
+    if not proof:
+        content["pubkey"] = hpub
+    c = Call("btokCVCWrap", lib.btokCVCWrap)
+    for v in c.v:
+        d, _ = _cvc_key(lib, rng, klen)
+        pl = lib.alloc(8, 0)
+        if lib.btokCVCWrap(0, pl, c17.mk_cvc(lib, content), lib.mk(d), klen) != ERR_OK:
+            raise Harness("btokCVCWrap length probe failed")
+        n = lib.rd_size(pl)
+        cert, pc = lib.alloc(n), c17.mk_cvc(lib, content)
+        v.args = [cert, lib.alloc(8, 0), pc, lib.mk(d), klen]
+        v.outs = [(cert, n), (pc, c17.CVC_SIZE)]       # certificate; the content structure receives the signature (and the key)
+        v.pub = [lib.rd(pc, c17.CVC_SIZE)]
+        v.needles = [d]
+    return c
+
+
+def _btok_cvc_iss(lib, rng, size):
+    from . import c17
+    klen = rng.choice([24, 32, 48, 64])
+    auth, holder = _cvc_names(rng)
+    hk = rng.choice([24, 32, 48, 64])
+    _, hpub = _cvc_key(lib, rng, hk)
+    content = {"authority": auth, "holder": holder, "pubkey": hpub, "from": c17.ymd(23, 1, 1), "until": c17.ymd(27, 12, 31),
+               "hat_eid": rb(rng, 5), "hat_esign": rb(rng, 2)}
+    c = Call("btokCVCIss", lib.btokCVCIss)
+    for v in c.v:
+        da, _ = _cvc_key(lib, rng, klen)
+        certa = _cvc_self(lib, da, auth, (c17.ymd(22, 7, 7), c17.ymd(29, 7, 7)))
+        pl = lib.alloc(8, 0)
+        if lib.btokCVCIss(0, pl, c17.mk_cvc(lib, content), lib.mk(certa), len(certa), lib.mk(da), klen) != ERR_OK:
+            raise Harness("btokCVCIss length probe failed")
+        n = lib.rd_size(pl)
+        cert, pc = lib.alloc(n), c17.mk_cvc(lib, content)
+        v.args = [cert, lib.alloc(8, 0), pc, lib.mk(certa), len(certa), lib.mk(da), klen]
+        v.outs = [(cert, n), (pc, c17.CVC_SIZE)]
+        v.pub = [lib.rd(pc, c17.CVC_SIZE), certa]      # the issuer's certificate carries the public key matching the secret
+        v.needles = [da]
+    return c
+
+
+def _btok_cvc_match(bad=False):
+    def build(lib, rng, size):
+        from . import c17
+        klen = rng.choice([24, 32, 48, 64])
+        name, _ = _cvc_names(rng)
+        dates = (c17.ymd(22, 7, 7), c17.ymd(29, 7, 7))
+        d3, _ = _cvc_key(lib, rng, klen)
+        other = _cvc_self(lib, d3, name, dates)            # somebody else's certificate, the same in both twins
+        c = Call("btokCVCMatch" + (":bad-keypair" if bad else ""), lib.btokCVCMatch, "bad-keypair" if bad else "ok")
+        c.expect_ok = not bad
+        for v in c.v:
+            d, _ = _cvc_key(lib, rng, klen)
+            cert = other if bad else _cvc_self(lib, d, name, dates)
+            v.args = [lib.mk(cert), len(cert), lib.mk(d), klen]
+            v.pub = [cert]
+            v.needles = [d]
+        return c
+    return build
+
+
+# ---- pfok (test parameters, l = 638) -------------------------------------------------------------------------------
+
+def _pfok(lib):
+    P = _CACHE.get((id(lib), "pfok"))
+    if P is None:
+        from ..ref import pfok as PF
+        P = _CACHE[(id(lib), "pfok")] = PF.load_params(lib, "test")
+    return P
+
+
+def _pfok_pub(lib, P, x):
+    pub = lib.alloc(P.no)
+    if lib.pfokPubkeyCalc(pub, lib.mk(P.raw), lib.mk(x)) != ERR_OK:
+        raise Harness("pfokPubkeyCalc failed")
+    return lib.rd(pub, P.no)
+
+
+def _pfok_priv(P, rng):
+    return rng.getrandbits(P.r).to_bytes(P.mo, "little")
+
+
+def _pfok_keygen(lib, rng, size):
+    P = _pfok(lib)
+    c = Call("pfokKeypairGen", lib.pfokKeypairGen)
+    for v in c.v:
+        priv, pub = lib.alloc(P.mo), lib.alloc(P.no)
+        k = rb(rng, 32)
+        v.args = [priv, pub, lib.mk(P.raw), lib.addr(_brng()), rng_state(lib, random.Random(47), key=k)]
+        v.outs = [(priv, P.mo), (pub, P.no)]
+        v.needles = [k]
+    return c
+
+
+def _pfok_pubcalc(lib, rng, size):
+    P = _pfok(lib)
+    c = Call("pfokPubkeyCalc", lib.pfokPubkeyCalc)
+    for v in c.v:
+        x = _pfok_priv(P, rng)
+        pub = lib.alloc(P.no)
+        v.args = [pub, lib.mk(P.raw), lib.mk(x)]
+        v.outs = [(pub, P.no)]
+        v.needles = [x]
+    return c
+
+
+def _pfok_dh(lib, rng, size):
+    P = _pfok(lib)
+    yb = _pfok_pub(lib, P, _pfok_priv(P, rng))
+    c = Call("pfokDH", lib.pfokDH)
+    for v in c.v:
+        x = _pfok_priv(P, rng)
+        key = lib.alloc(P.ko)
+        v.args = [key, lib.mk(P.raw), lib.mk(x), lib.mk(yb)]
+        v.outs = [(key, P.ko)]       # shared key handed to the caller
+        v.pub = [yb]
+        v.needles = [x]
+    return c
+
+
+def _pfok_mti(lib, rng, size):
+    P = _pfok(lib)
+    yb, vb = _pfok_pub(lib, P, _pfok_priv(P, rng)), _pfok_pub(lib, P, _pfok_priv(P, rng))
+    c = Call("pfokMTI", lib.pfokMTI)
+    for v in c.v:
+        x, u = _pfok_priv(P, rng), _pfok_priv(P, rng)
+        key = lib.alloc(P.ko)
+        v.args = [key, lib.mk(P.raw), lib.mk(x), lib.mk(u), lib.mk(yb), lib.mk(vb)]
+        v.outs = [(key, P.ko)]
+        v.pub = [yb, vb]
+        v.needles = [x, u]
+    return c
+
+
+# ---- g12s ----------------------------------------------------------------------------------------------------------------
+
+G12S_NAMES = ("1.2.643.2.2.35.1", "1.2.643.7.1.2.1.2.1")
+
+
+def _g12s(lib, name):
+    P = _CACHE.get((id(lib), "g12s", name))
+    if P is None:
+        from ..ref import g12s as G
+        P = _CACHE[(id(lib), "g12s", name)] = G.load_params(lib, name)
+    return P
+
+
+def _g12s_sign(lib, rng, size):
+    P = _g12s(lib, rng.choice(G12S_NAMES))
+    h = rb(rng, P.mo)
+    c = Call("g12sSign", lib.g12sSign)
+    for v in c.v:
+        d = rng.randrange(1, P.q).to_bytes(P.mo, "little")
+        sig = lib.alloc(2 * P.mo)
+        v.args = [sig, lib.mk(P.raw), lib.mk(h), lib.mk(d), lib.addr(_brng()), rng_state(lib, random.Random(53))]
+        v.outs = [(sig, 2 * P.mo)]
+        v.pub = [h]
+        v.needles = [d]
+    return c
+
+
+def _g12s_keygen(lib, rng, size):
+    P = _g12s(lib, rng.choice(G12S_NAMES))
+    c = Call("g12sKeypairGen", lib.g12sKeypairGen)
+    for v in c.v:
+        priv, pub = lib.alloc(P.mo), lib.alloc(2 * P.no)
+        k = rb(rng, 32)
+        v.args = [priv, pub, lib.mk(P.raw), lib.addr(_brng()), rng_state(lib, random.Random(59), key=k)]
+        v.outs = [(priv, P.mo), (pub, 2 * P.no)]
+        v.needles = [k]
+    return c
+
+
+# ---- dstu ----------------------------------------------------------------------------------------------------------------
+
+DSTU_NAMES = ("1.2.804.2.1.1.1.1.3.1.1.1.2.0", "1.2.804.2.1.1.1.1.3.1.1.1.2.3")
+
+
+def dstu_params(lib, name):
+    """standard curve with a base point made by dstuPointGen on a fixed tape (DSTU defines no standard base points)"""
+    P = _CACHE.get((id(lib), "dstu", name))
+    if P is None:
+        from ..ref import dstu as D
+        P0 = D.load_params(lib, name)
+        pt = lib.alloc(2 * P0.no)
+        pp = lib.mk(P0.raw)
+        st = rng_state(lib, random.Random("dstu base point " + name))
+        if lib.dstuPointGen(pt, pp, lib.addr(_brng()), st) != ERR_OK:
+            raise Harness("dstuPointGen failed")
+        P = _CACHE[(id(lib), "dstu", name)] = P0.with_point(lib.rd(pt, 2 * P0.no))
+        for x in (pt, pp):
+            lib.free_one(x)
+            del lib.sizes[x]
+    return P
+
+
+def _dstu_priv(P, rng):
+    # 6.3: a scalar is kept to bitlen(n) - 1 bits, non-zero
+    return rng.randrange(1, 1 << (P.nb - 1)).to_bytes(P.order_no, "little")
+
+
+def _dstu_sign(lib, rng, size):
+    P = dstu_params(lib, rng.choice(DSTU_NAMES))
+    h = rb(rng, rng.choice([20, 32, 64]))
+    ld = 16 * P.order_no
+    c = Call("dstuSign", lib.dstuSign)
+    for v in c.v:
+        d = _dstu_priv(P, rng)
+        sig = lib.alloc(ld // 8)
+        v.args = [sig, lib.mk(P.raw), ld, lib.mk(h), len(h), lib.mk(d), lib.addr(_brng()), rng_state(lib, random.Random(61))]
+        v.outs = [(sig, ld // 8)]
+        v.pub = [h]
+        v.needles = [d]
+    return c
+
+
+def _dstu_keygen(lib, rng, size):
+    P = dstu_params(lib, rng.choice(DSTU_NAMES))
+    c = Call("dstuKeypairGen", lib.dstuKeypairGen)
+    for v in c.v:
+        priv, pub = lib.alloc(P.order_no), lib.alloc(2 * P.no)
+        k = rb(rng, 32)
+        v.args = [priv, pub, lib.mk(P.raw), lib.addr(_brng()), rng_state(lib, random.Random(67), key=k)]
+        v.outs = [(priv, P.order_no), (pub, 2 * P.no)]
+        v.needles = [k]
+    return c
+
+
+# ---- bake helpers -----------------------------------------------------------------------------------------------------
+
+def _bake_kdf(lib, rng, size):
+    slen = max(8, size)
+    iv = rb(rng, rng.choice([0, 16, 37]))
+    num = rng.choice([0, 1, 2, 0xFFFF])
+    c = Call("bakeKDF", lib.bakeKDF)
+    for v in c.v:
+        secret = rb(rng, slen)
+        hp = lib.alloc(32)
+        lib.beltHash(hp, lib.mk(secret + iv), slen + len(iv))
+        key = lib.alloc(32)
+        v.args = [key, lib.mk(secret), slen, lib.mk(iv), len(iv), num]
+        v.outs = [(key, 32)]          # derived key handed to the caller
+        v.pub = [iv]
+        v.needles = [secret, lib.rd(hp, 32)]      # and the intermediate key belt-hash(secret || iv) that belt-krp is started on
+    return c
+
+
+def _bake_swu(lib, rng, size):
+    l = rng.choice([128, 192, 256])
+    c = Call("bakeSWU", lib.bakeSWU)
+    for v in c.v:
+        params, _ = bign_params(lib, l)
+        msg = rb(rng, l // 4)        # in BPACE: the decrypted random contribution, a function of the password
+        pt = lib.alloc(l // 2)
+        v.args = [pt, params, lib.mk(msg)]
+        v.outs = [(pt, l // 2)]
+        v.needles = [msg]
+    return c
+
+
+_ROUND2 = {
+    "beltFMTDecr": _fmt_decr,
+    "belsShare2": _bels_share23(False), "belsShare3": _bels_share23(True), "belsRecover2": _bels_recover2,
+    "botpHOTPVerify": _otp_verify("HOTP"), "botpHOTPVerify:bad": _otp_verify("HOTP", True),
+    "botpTOTPVerify": _otp_verify("TOTP"), "botpTOTPVerify:bad": _otp_verify("TOTP", True),
+    "botpOCRAVerify": _otp_verify("OCRA"), "botpOCRAVerify:bad": _otp_verify("OCRA", True),
+    "bakeKDF": _bake_kdf,
+}
+_ROUND2_HEAVY = {
+    "bign96Sign": _bign96_sign(False), "bign96Sign2": _bign96_sign(True), "bign96KeypairGen": _bign96_keygen,
+    "bign96PubkeyCalc": _bign96_pubcalc, "bign96KeypairVal": _keypair_val(True), "bign96KeypairVal:bad": _keypair_val(True, True),
+    "bignKeypairVal": _keypair_val(False), "bignKeypairVal:bad": _keypair_val(False, True),
+    "bignIdExtract": _bign_id_extract, "bignIdSign": _bign_id_sign(False), "bignIdSign2": _bign_id_sign(True),
+    "bpkiShareWrap": _bpki_share(False), "bpkiShareUnwrap": _bpki_share(True), "bpkiShareUnwrap:bad": _bpki_share(True, True),
+    "bpkiCSRRewrap": _bpki_csr_rewrap,
+    "btokCVCWrap": _btok_cvc_wrap, "btokCVCIss": _btok_cvc_iss,
+    "btokCVCMatch": _btok_cvc_match(), "btokCVCMatch:bad": _btok_cvc_match(True),
+    "pfokKeypairGen": _pfok_keygen, "pfokPubkeyCalc": _pfok_pubcalc, "pfokDH": _pfok_dh, "pfokMTI": _pfok_mti,
+    "g12sSign": _g12s_sign, "g12sKeypairGen": _g12s_keygen,
+    "dstuSign": _dstu_sign, "dstuKeypairGen": _dstu_keygen,
+    "bakeSWU": _bake_swu,
+}
+BUILDERS.update(_ROUND2)
+BUILDERS.update(_ROUND2_HEAVY)
+HEAVY.update(_ROUND2_HEAVY)
